@@ -26,7 +26,7 @@ REL = Fraction(1, 10**30)
 
 
 def amounts_for(d):
-    return [Decimal(0), Decimal(1) / Decimal(10**d), Decimal("0.000001"), Decimal(1), Decimal("1234.567891"),
+    return [Decimal(0), Decimal(1) / Decimal(10**d), Decimal("0.000001"), Decimal(1), Decimal("1.0000006"), Decimal("2.00000000000000000051"), Decimal("1234.567891"),
             Decimal(10**6), Decimal(10**12)]
 
 
@@ -194,7 +194,7 @@ def work(args):
     for ta, tb in pairs:
         part.count("tick_pairs")
         part.sample({"lower": ta, "upper": tb, "prices": "11 points on/around/between the bounds", "decimals": "{6,8,18}^2",
-                     "amounts": "7x7 incl. 0, 1 wei, 1e12"}, every=7)
+                     "amounts": "9x9 incl. 0, 1 wei, sub-unit fractions, 1e12"}, every=7)
         check_pair(part, ta, tb)
     return part.result()
 
@@ -209,7 +209,7 @@ def main(run: Run):
         "evaluations": run.counters.get("evaluations", 0),
         "distinct_nontrivial": run.counters.get("nontrivial_liq", 0),
         "rule": f"ticks {ticks}, all pairs lower<upper; per pair 11 sqrt prices (bounds, bounds±1, quartiles, MIN/MAX sqrt ratio); "
-                "decimals {6,8,18}^2; offered amounts {0, 1 wei, 1e-6, 1, 1234.567891, 1e6, 1e12} per token; liquidity multipliers "
+                "decimals {6,8,18}^2; offered amounts {0, 1 wei, 1e-6, 1, 1.0000006, 2.00000000000000000051 (sub-unit fractions), 1234.567891, 1e6, 1e12} per token; liquidity multipliers "
                 f"{MULTS}. distinct_nontrivial = number of distinct (pair, price, decimals, amounts) cases that mint liquidity > 0.",
         "tick_pairs": run.counters.get("tick_pairs", 0),
         "liq_cases": run.counters.get("liq_cases", 0),
